@@ -104,7 +104,11 @@ def run(facts, rep, ctx):
         cnt = []
         for bb in w.reachable(0):
             for s in w.stmts(bb):
-                if s['k'] == 'assign' and 'pj' in s['p'] and s['r']['k'] == 'use':
+                if s['k'] == 'assign' and 'pj' in s['p'] and s['r']['k'] == 'bin' and s['r']['op'].startswith('Add') and \
+                        (s['r']['b'].get('k') or {}).get('v') == 1:
+                    # release profile: `*cell = Add(*cell, 1)` without the overflow tuple
+                    cnt.append(bb)
+                elif s['k'] == 'assign' and 'pj' in s['p'] and s['r']['k'] == 'use':
                     q = s['r']['o'].get('m') or s['r']['o'].get('c')
                     if q is not None and q.get('pj') and isinstance(q['pj'][-1], dict) and q['pj'][-1].get('f') == 0:
                         sd = w.single_def(q['l'])
